@@ -117,6 +117,10 @@ class Obj:
         return f'<{self.cls} {self.label or hex(id(self))}>'
 
 
+class PySet(list):
+    """python set: a duplicate-free list (iteration order = first occurrence, unspecified in python); == is set equality"""
+
+
 class SList:
     """python list of symbolic length: z3 Array Int->PyVal-ish (here Int codes) plus length; mutable ref"""
 
